@@ -636,6 +636,35 @@ pub fn enumerate(thorough: bool, part: usize, _parts: usize, sink: &mut crate::r
                     break;
                 }
             }
+            // one old term combined with every later term: r = [a] was once subsumed (union(r, [a-c]) = [a-c]);
+            // whatever the manager remembers about that, union(r, t_i) must still contain "a" and w_i
+            if fails.is_empty() {
+                let r = m.char(0x61);
+                let wide = m.range(0x61, 0x63);
+                let u0 = m.union(r, wide);
+                if !m.str_in_re(&SmtStringOf(&[0x61]), u0) {
+                    fails.push(("C07/language-depends-on-history".into(), "union(a, [a-c]) does not contain a".into()));
+                }
+                for i in (0..n).step_by(3) {
+                    let u = m.union(r, terms[i as usize]);
+                    let i2 = m.inter(u, r);
+                    evals += 3;
+                    if !m.str_in_re(&SmtStringOf(&[0x61]), u) || !m.str_in_re(&SmtStringOf(&word(i)), u) || !m.str_in_re(&SmtStringOf(&[0x61]), i2) {
+                        fails.push(("C07/language-depends-on-history".into(), format!("manager with {} word terms: union(a, term #{}) = {} lost a member (the same construction on a fresh manager keeps it)", n, i, u)));
+                        break;
+                    }
+                }
+                // and with fresh ranges (terms that can subsume or be subsumed)
+                for i in 0..6000u32 {
+                    let s = m.range(0x1000 + 3 * i, 0x1000 + 3 * i + 1);
+                    let u = m.union(r, s);
+                    evals += 2;
+                    if !m.str_in_re(&SmtStringOf(&[0x61]), u) || !m.str_in_re(&SmtStringOf(&[0x1000 + 3 * i]), u) {
+                        fails.push(("C07/language-depends-on-history".into(), format!("manager with many terms: union(a, fresh range #{}) = {} lost a member", i, u)));
+                        break;
+                    }
+                }
+            }
             fails.push(("__evals".into(), evals.to_string()));
             fails
         });
